@@ -227,6 +227,8 @@ Proof.
     match goal with Hq : f_srnc ?x = _ |- _ => destruct x; inversion Hq end.
   - intros d1. upd_eq d1; [eauto|apply EO].
   - intros d1. upd_eq d1; [eauto|apply EO].
+  - intros d1. upd_eq d1; [|apply EO]. rewrite (fires_pending _ Heqb0). discriminate.
+  - intros d1. upd_eq d1; [|apply EO]. rewrite (fires_pending _ Heqb0). discriminate.
 Qed.
 
 Lemma invE_init : InvE init.
